@@ -39,6 +39,11 @@ CLAIMED = {
   design_ref="DESIGN.md §3 C08",
   note="The base is always a valid corpus program; purely generative inputs (token soups, random bytes, grammar-generated programs) are not claimed. Digit runs are never lengthened. Step/heap budgets are far above legitimate compiles of corpus-sized sources.",
   technique="deterministic simulation with fault injection on the source stream: seeded EOF/loss/duplication/reorder/corruption/read-error plans + totality oracle"),
+ "C09": dict(
+  text="Seeded fault injection on the searched byte stream (EOF at byte k, emptied, corrupted, duplicated segments) delivered through Run(string), RunFiles(file) and RunFiles(directory), for corpus programs and for programs that survived a fault on their own source; oracle = the call returns a list, no panic of any kind (plus a calibrated step budget for unmodified programs on prefixes of their own text). Thorough adds every cut position of every corpus pair x 3 deliveries. Claimed for the stream-facing half of the property only. Exploration.",
+  design_ref="DESIGN.md §3 C09",
+  note="The 'all accepted programs' half of the quantifier is only sampled (corpus + fault-surviving programs without loops/subroutines); a crash that needs a particular program shape on a friendly input is input generation and is not hunted here.",
+  technique="deterministic simulation with fault injection on the searched stream: seeded EOF/corruption/duplication plans x delivery paths + no-crash oracle"),
 }
 
 NA = {
